@@ -10,17 +10,31 @@ ALLOWED_AXIOMS = []
 READY = True
 RUN_IMPORT = "Dom.ViewRun"
 
-RULE = ("case = (npre npost v0 (v1..vn)): a view value v0 drawn from the grammar text | unit | element(tag in p/span/div "
+RULE = ("case = (npre npost v0 (v1..vn)): a view value v0 drawn from the grammar text (String, &'static str, Arc<str>, "
+        "Cow::Borrowed / Owned) | 33 primitive types (all integer and float types, char, bool, IP / socket addresses, "
+        "NonZero*) | unit | element(tag in p/span/div "
         "and the raw-text elements textarea/style/script/noscript (ESCAPE_CHILDREN = false; about one element in four, "
         "their child mostly a text, an Option or a tuple, every v1..vn mutating it), "
         "attributes id: Option<String>, hidden: bool, class: String, class:on: bool, style color: String; one child) | "
-        "tuple of 2-3 | Either left/right | EitherOf3 | Option | Vec | array [T; 0..3] | StaticVec (= Fragment) | keyed list "
-        "| i32 | &'static str, every child position type-erased with "
+        "tuple of 1-8 | Either left/right | EitherOf3/4/5/8/16 | Option | Result Ok/Err | Vec | array [T; 0..3] | StaticVec "
+        "(= Fragment, built through Fragment::new when its length is odd) | keyed list "
+        "| InertElement (4 HTML strings; oracle only), every child position type-erased with "
         "into_any() (so a change of shape is a change of the underlying type and equal shapes go through the typed "
         "rebuild), nesting depth <= 4 (quick) / 5 (thorough), is built and mounted between npre/npost text siblings, "
-        "rebuilt with v1..vn (each either a mutation of the previous value — text/attribute edits, branch switches, "
-        "insertions/removals in lists, shape changes — or an independent draw) and unmounted; the harness also renders "
-        "every vi from scratch between the same siblings. All draws come from the PRNG seeded by VERIF_SEED. The "
+        "rebuilt with v1..vn (each either a mutation of the previous value - text/attribute edits, branch switches, "
+        "insertions/removals in lists, shape changes - or an independent draw) and unmounted; the harness also renders "
+        "every vi from scratch between the same siblings. One case in 25 is a history of EitherKeepAlive values (at the "
+        "root, as a member of a fixed tuple or as the child of a fixed element; sides given as Some(new value) - also "
+        "the hidden one - or None = no change, switches of show_b; oracle only: the from-scratch render uses the values "
+        "the sides hold). One case in 8 is a STATICALLY TYPED template (harness/dom/src/c03t.rs, 140 templates, no "
+        "AnyView inside: &str / String / Rc<str> / Arc<str> / Cow texts with shared and fresh pointers, 22 primitive "
+        "types, tuples of 1-13, Option, Vec, arrays, Either, EitherOf3/4/7, Result, StaticVec, keyed, EitherKeepAlive, "
+        "InertElement, ViewTemplate; elements p/div/input/br/img/custom element/svg/mathml with every AttributeValue "
+        "(&str, String, &String, Arc<str>, bool, numbers, char, (), Option of each), IntoClass (&str, String, Cow, "
+        "Arc<str>, Option, (name, bool) toggles, combinations), IntoStyle (&str, String, Arc<str>, Option, (name, value) "
+        "with &str / String / Arc<str> / Option values), inner_html (&str, String, Arc<str>, Option), custom attributes, "
+        "bool properties, nine attributes at once) driven by a vector of six small parameters per step, 40% of them "
+        "also wrapped in into_any() (the owned / cloneable forms); oracle only. All draws come from the PRNG seeded by VERIF_SEED. The "
         "item view of a keyed list is a function of its key (tachys keeps the state of a retained key). "
         "Non-trivial = some vi differs from its predecessor; distinct = distinct case hash.")
 TRUSTED = [
@@ -31,6 +45,12 @@ TRUSTED = [
     "class/class:on/style attributes, i32, &'static str, tuples, arrays, Either, EitherOf3, Option, Vec, StaticVec, "
     "keyed, AnyView) on the native in-memory "
     "DOM of the verif-hook commit, trusted to implement DOM insertBefore/remove/setAttribute/classList semantics",
+    "NOT modelled, judged by the model-independent oracle only (the harness renders every value from scratch and the "
+    "oracle compares; `compare: False`): EitherKeepAlive, InertElement, and all statically typed templates of "
+    "harness/dom/src/c03t.rs (typed Render / AttributeValue / IntoClass / IntoStyle / InnerHtmlValue / IntoProperty impls, "
+    "self-closing / custom / svg / mathml elements, custom attributes, ViewTemplate); the new erased views Arc<str>, Cow, "
+    "primitives, 1-tuples, larger tuples, EitherOf4..16, Result, Fragment ARE compared: ViewRun.v decodes them onto the "
+    "model's constructors (Result = an Either whose Err side is the placeholder of ())",
     "modelled, not verified: the DOM (Dom/View.v: a parent's child list of node trees; attributes as four slots), "
     "TypeId equality of AnyView as equality of the shape constructor (element tag, tuple arity), itertools::zip_longest, "
     "Vec — compared with the real code on every case",
@@ -40,6 +60,10 @@ ASSUMPTIONS = [
     "class strings are single-space separated tokens (what the generator produces); other whitespace is normalised "
     "by classList and not modelled",
     "attribute insertion order is not part of the DOM that is compared (attributes are a map)",
+    "typed templates: a class attribute without tokens counts as no class attribute (classList.remove of the last token "
+    "leaves class=\"\"), and a DOM property set to undefined counts as one that was never set (Option<bool> properties: "
+    "rebuild writes undefined for None, build writes nothing; properties are not in the property text)",
+    "EitherKeepAlive: the side that is shown has been given a value (tachys: expect(\"A was not present\"))",
 ]
 LEVEL_TEXT = ("Unbounded Coq proof, over an executable Gallina transcription of tachys' Render::build / rebuild / mount / "
               "unmount / insert_before_this for every combinator of the grammar (text and primitives, elements of any tag with "
@@ -61,8 +85,10 @@ LEVEL_NOTE = ("unbounded machine-checked proof (rebuild = fresh render, for ever
               "the model runs C11's diff/apply_diff with the item views as builder and the keyed case is proved "
               "from C11's keyed_rebuild_ok / rebuild_items (hypothesis: a retained row shows what its item view "
               "shows, which is how tachys treats keys); the link between the "
-              "compared serialisation and the content function cs is proved (C03_serialisation_is_cs). Not in the "
-              "grammar: Result/ErrorBoundary, EitherKeepAlive, inner_html, prop: (needs a JS value), templates")
+              "compared serialisation and the content function cs is proved (C03_serialisation_is_cs). Oracle-only "
+              "(not in the model): EitherKeepAlive, InertElement, ViewTemplate, inner_html, properties, and every statically "
+              "typed (non-AnyView) rebuild; not driven at all: Static<V> / StaticAttr (nightly), Island (feature islands), "
+              "Doctype / IslandChildren (no client state), string-valued properties (need a JS value); see coverage/C03.md")
 TECHNIQUE = "Coq proof of an executable model + differential correspondence on the native DOM hook"
 
 TEXTS = ["", "a", "b", "cc", "<x>"]
@@ -359,6 +385,84 @@ def nodeless(v):
     return False
 
 
+# ------------------------------------------------------------------------ typed templates (oracle only)
+# harness/dom/src/c03t.rs; (id, what the template is, typed only?)
+TEMPLATES = {
+    0: "&'static str", 1: "String", 2: "Arc<str>", 3: "Cow<str>", 4: "Rc<str>", 5: "(&str, String)", 6: "(String,)",
+    7: "(&str, String, Arc<str>, Cow<str>, i32)", 8: "13-tuple of &str / String / u8", 9: "Option<&str>", 10: "Option<String>",
+    11: "Option<(String, &str)>", 12: "Vec<String>", 13: "Vec<&str>", 14: "Vec<Option<String>>", 15: "Vec<(String, Option<&str>)>",
+    16: "[String; 2]", 17: "[&str; 3]", 18: "Either<&str, String>", 19: "Either<(String, String), Vec<String>>",
+    20: "EitherOf3<&str, String, Option<String>>", 21: "EitherOf4<String, &str, (String, String), Vec<String>>", 22: "EitherOf7<..>",
+    23: "Result<String, E>", 24: "Result<(String, &str), E>", 25: "StaticVec<String>", 26: "keyed list of Strings",
+    27: "EitherKeepAlive<String, (String, &str)>", 28: "Option<Vec<String>>", 29: "(Vec<String>, Option<String>, &str)",
+    30: "InertElement", 31: "()", 32: "Vec<Either<String, (String, String)>>", 33: "keyed list of (String, <span>) rows",
+    34: "Result<Vec<String>, E>", 35: "(Rc<str>, Option<Rc<str>>, Vec<Rc<str>>)",
+    100: "u8", 101: "u16", 102: "u32", 103: "u64", 104: "u128", 105: "usize", 106: "i8", 107: "i16", 108: "i32", 109: "i64",
+    110: "i128", 111: "isize", 112: "f32", 113: "f64", 114: "char", 115: "bool", 116: "Ipv4Addr", 117: "IpAddr", 118: "SocketAddr",
+    119: "NonZeroU8", 120: "NonZeroI64", 121: "NonZeroUsize",
+    200: "<p>{&str}", 201: "<div id=&str>", 202: "<div id=String>{String}", 203: "<div id=Arc<str>>", 204: "<div id=Option<&str>>",
+    205: "<div id=Option<String>>", 206: "<div id=&String>", 207: "<div hidden=bool>", 208: "<div hidden=Option<bool>>",
+    209: "<div tabindex=i32>", 210: "<div title=u64 lang=f64 dir=char>", 211: "<div title=()>", 212: "<div id=Option<Arc<str>>>",
+    213: "<div id=Option<i32>>", 214: "<input value=String id=Option<&str>>", 215: "(&str, <br>, String)", 216: "<img src=&str alt=Option<String>>",
+    217: "custom element <my-el id=&str>", 218: "<svg><circle r=String cx=Option<&str>>", 219: "<math><mi>",
+    220: "<div class=&str>", 221: "<div class=String>", 222: "<div class=Cow<str>>", 223: "<div class=Arc<str>>", 224: "<div class=Option<&str>>",
+    225: "<div class=Option<String>>", 226: "<div class:on=bool>", 227: "<div class=&str class:on=bool>", 228: "<div class:on=bool class:a=bool>",
+    230: "<div class=Option<(\"on\", bool)>>", 231: "<div class=String class:on=bool>",
+    240: "<div style=&str>", 241: "<div style=String>", 242: "<div style=Arc<str>>", 243: "<div style=Option<&str>>",
+    244: "<div style:color=&str>", 245: "<div style:color=String>", 246: "<div style:color=Arc<str>>", 247: "<div style:color=Option<String>>",
+    248: "<div style:color=&str style:margin=Option<&str>>", 249: "<div style=Option<(\"color\", &str)>>",
+    250: "<div inner_html=&str>", 251: "<div inner_html=String>", 252: "<div inner_html=Arc<str>>", 253: "<div inner_html=Option<String>>",
+    260: "<div data-x=String> (custom attribute)", 261: "<div data-x=Option<&str> aria-label=&str>", 262: "<input prop:checked=bool>",
+    263: "<input prop:checked=Option<bool>>",
+    270: "<div id=Option<&str> hidden=bool class=&str style:color=&str>{(&str, <span>{String}, Option<&str>)}",
+    271: "<div> with nine attributes", 272: "<ul>{Vec<<li>{String}>}", 273: "<div>{Either<<p id>, <span>>}",
+    274: "<div>{(Option<<span class>>, Vec<String>, <p>{i32})}", 280: "ViewTemplate<<div>{(&str, <span>{String}, String)}>",
+    281: "ViewTemplate<<p id=&str class=&str>{&str}>",
+    282: "ViewTemplate<<div id=&str>{(&str, <span class=&str>{String}, String)}>",
+}
+TYPED_ONLY = {4, 35}                    # Rc<str> is not Send: no into_any()
+CLASS_TOGGLE_TEMPLATES = {227, 231}     # class string + class:on toggle (F-C03-c territory)
+T_CLASSES = ["", "a", "b", "a b", "on", "a on"]
+
+
+def gen_typed_case(rng):
+    tpl = rng.choice(sorted(TEMPLATES))
+    erase = 0 if tpl in TYPED_ONLY else int(rng.random() < 0.4)
+    hi = rng.choice([5, 9, 11])
+    par = lambda: [rng.randint(0, hi) for _ in range(6)]
+
+    def near(q):
+        q = list(q)
+        for _ in range(rng.choice([0, 1, 1, 2, 3])):
+            q[rng.randrange(6)] = rng.randint(0, hi)
+        return q
+    ps = [par()]
+    for _ in range(rng.choice([1, 2, 3, 4, 5])):
+        ps.append(near(ps[-1]) if rng.random() < 0.75 else par())
+    vs = [[30, tpl, erase, q] for q in ps]
+    npre, npost = rng.choice([(0, 0), (1, 1), (0, 1), (1, 0), (2, 2), (0, 2)])
+    return dict(case=C.norm([npre, npost, vs[0], vs[1:]]), kind="typed template (oracle only)", compare=False)
+
+
+def typed_ok(vals):
+    """code 30 only as the whole value, the same template and erase flag in every step"""
+    if not any(has(v, 30) for v in vals):
+        return True
+    return (all(v[0] == 30 for v in vals) and len({(v[1], v[2]) for v in vals}) == 1 and vals[0][1] in TEMPLATES
+            and not (vals[0][2] and vals[0][1] in TYPED_ONLY))
+
+
+def typed_class_edit(tpl, erase, a, b):
+    """F-C03-c on the templates with a class string and a class:on toggle: the toggle was on, the rebuild writes the class
+    attribute again (erased: always - the owned string is an Arc<str> compared by pointer; typed: when the string differs)
+    and afterwards `on` is wanted but not in the string, or in the string but switched off"""
+    ca, cb = T_CLASSES[a[0] % 6], T_CLASSES[b[0] % 6]
+    on_a, on_b = a[1] % 2 == 1, b[1] % 2 == 1
+    rewritten = bool(erase) or ca != cb
+    has_on = "on" in cb.split()
+    return on_a and ((not on_b and has_on) or (on_b and rewritten and not has_on))
+
+
 # ------------------------------------------------------------------------ EitherKeepAlive (oracle only)
 # a side that already has a state and is hidden when the rebuild starts may be given a new value too (the state is
 # rebuilt while it is not mounted; F-C03-d, fixed: a Vec that grows while unmounted panicked)
@@ -470,6 +574,9 @@ def generate(rng, tier):
         if i % 25 == 7:
             yield gen_eka_case(rng, rng.randint(1, 3))
             continue
+        if i % 8 == 3:
+            yield gen_typed_case(rng)
+            continue
         r = rng.random()
         keyed = r < 0.12
         static = r < 0.30
@@ -532,6 +639,9 @@ def valid_view(v, depth=0):
                     and all(valid_view(x, depth + 1) and plain_view(x) for x in v[2] + v[3] + v[4] + v[5]))
         if t == 19:
             return len(v) == 2 and isinstance(v[1], int) and 0 <= v[1] < N_INERT
+        if t == 30:
+            return (depth == 0 and len(v) == 4 and v[1] in TEMPLATES and v[2] in (0, 1) and isinstance(v[3], list)
+                    and len(v[3]) <= 6 and all(isinstance(x, int) and 0 <= x <= 11 for x in v[3]))
         if t == 4:
             return len(v) == 3 and v[1] in (0, 1) and valid_view(v[2], depth + 1)
         if t == 5:
@@ -592,9 +702,9 @@ def valid_case(item):
         return False
     if not valid_view(c[2]) or not all(valid_view(v) for v in c[3]):
         return False
-    if not eka_chains_ok([c[2]] + c[3]):
+    if not eka_chains_ok([c[2]] + c[3]) or not typed_ok([c[2]] + c[3]):
         return False
-    if item.get("compare", True) and any(has(v, 18) or has(v, 19) for v in [c[2]] + c[3]):
+    if item.get("compare", True) and any(has(v, 18) or has(v, 19) or has(v, 30) for v in [c[2]] + c[3]):
         return False
     return True
 
@@ -610,6 +720,21 @@ def strip(nodes):
             a = n[2]
             cls = None if not a[2] else tuple(sorted(bytes(a[2][0]).decode("utf-8", "replace").split()))
             out.append((2, n[1], (tuple(map(tuple, a[0])), a[1], cls, tuple(map(tuple, a[3]))), tuple(strip(n[3]))))
+        elif n[0] == 3:
+            # typed templates: all attributes; the class attribute as a set of tokens
+            # (a class attribute without tokens is the same set of classes as no class attribute: classList.remove of
+            # the last token leaves class=""; a DOM property set to `undefined` reads like one that was never set)
+            attrs = []
+            for k, val in n[2]:
+                k, val = bytes(k).decode("utf-8", "replace"), bytes(val).decode("utf-8", "replace")
+                if k == "class":
+                    if val.split():
+                        attrs.append((k, tuple(sorted(val.split()))))
+                else:
+                    attrs.append((k, val))
+            pair = lambda l: tuple((bytes(k), bytes(x)) for k, x in l)
+            props = tuple(kv for kv in pair(n[4]) if kv[1] != b"undefined")
+            out.append((3, bytes(n[1]), tuple(attrs), pair(n[3]), props, tuple(strip(n[5]))))
         elif n[0] == 9:
             out.append((9,))
     return out
@@ -700,6 +825,8 @@ def classify(item, impl, model):
     npre, npost, v0, vs = item["case"]
     if isinstance(impl, str):
         return None
+    if impl == [-9] and v0[0] == 30:
+        return "F-C03-e" if v0[1] == 280 else None
     if impl == [-9]:
         # the panics that follow from F-C03-a (a view that was never mounted is rebuilt later):
         # predicted by the model, and only in cases with a StaticVec
@@ -717,6 +844,13 @@ def classify(item, impl, model):
     seq = [v0] + vs
     step = min(f[0], len(vs) - 1)
     upto = seq[:step + 2]
+    if v0[0] == 30:
+        if v0[1] in CLASS_TOGGLE_TEMPLATES and any(typed_class_edit(v0[1], v0[2], a[3] + [0] * 6, b[3] + [0] * 6)
+                                                  for a, b in zip(upto, upto[1:])):
+            return "F-C03-c"
+        if v0[1] == 25 and npost > 0:
+            return "F-C03-ab"           # StaticVec::rebuild re-mounts after the following siblings (F-C03-b)
+        return None
     if any(class_edit(a, b) for a, b in zip(upto, upto[1:])):
         return "F-C03-c"
     if any(nodeless(v) for v in upto):
@@ -755,6 +889,8 @@ def show(v):
         return "EitherKeepAlive{a: %s, b: %s, show_b: %s}" % (side(v[2]), side(v[3]), bool(v[1]))
     if t == 19:
         return "InertElement#%d" % v[1]
+    if t == 30:
+        return "template %d%s [%s] %r" % (v[1], " erased with into_any()" if v[2] else " (statically typed)", TEMPLATES.get(v[1]), v[3])
     if t == 11:
         return "EitherOf3::" + "ABC"[v[1]] + "(" + show(v[2]) + ")"
     if t == 12:
